@@ -136,14 +136,18 @@ def run(sc, workdir):
         xvals[n1], xvals[n2] = v * 4.0, 4.0
         assign.append({"lhs": first, "expr": ["/", ["par", n1], ["par", n2]]})
     else:
-        # intermediate variable, then use it
+        # intermediate variable, then use it.  Its name is the author's choice: short names that also occur in the
+        # generated kernel source (arguments of its macros and functions) are legal names for it
+        vtmp = ["vtmp", "q", "form", "qa", "shell", "mode", "v", "qc", "F2", "t", "qx", "scale"][tid % 12]
+        if vtmp in base_ids or vtmp in newids:
+            vtmp = "vtmp"
         if n2:
             xvals[n1], xvals[n2] = v / 4.0, 2.0
-            assign.append({"lhs": "vtmp", "expr": ["*", ["par", n1], ["par", n2]]})
+            assign.append({"lhs": vtmp, "expr": ["*", ["par", n1], ["par", n2]]})
         else:
             xvals[n1] = v / 2.0
-            assign.append({"lhs": "vtmp", "expr": ["+", ["par", n1], ["const", "0.0"]]})
-        assign.append({"lhs": first, "expr": ["*", ["par", "vtmp"], ["const", "2.0"]]})
+            assign.append({"lhs": vtmp, "expr": ["+", ["par", n1], ["const", "0.0"]]})
+        assign.append({"lhs": first, "expr": ["*", ["par", vtmp], ["const", "2.0"]]})
     for p in removed[1:]:
         # second removed parameter: a function of a new parameter and a kept base parameter
         src = ["par", n1]
